@@ -48,6 +48,26 @@ JOBS = [
       note="bounded: one concrete dumped DAG of 14 nodes (child lists <= 4, every node kind), contraction state: %s; summaries of the created tasks and the resume kinds after the waits arbitrary" % what)
   for sc, nm, what in ((0, "materialised", "nothing contracted"), (1, "contracted_a", "section A (two creates) contracted"),
                        (2, "contracted_b", "section B (one create) contracted"), (3, "contracted_ab", "both sections contracted"))
+] + [
+  # recording side: the open-section stack of a task (c18_sections.c); nesting depth symbolic (one-level-down memory)
+  Job("c18.sections.%s" % nm, "c18_sections.c", h, replace_calls=["exit:verif_exit"], cbmc=["--unwind", "6", "--unwinding-assertions"],
+      fuc=f, timeout=120, note="complete: nesting depth symbolic (active node = task, or a section whose parent is the task or an enclosing section); "
+      "loops bounded by constants of the type (counters, interval / edge kinds)")
+  for nm, h, f in (("queries", "h_queries", ["dr_task_active_node", "dr_task_last_node"]),
+                   ("begin", "h_begin_section", ["dr_begin_section__", "dr_push_back_section", "dr_dag_node_init_section_or_task", "dr_dag_node_list_push_back", "dr_dag_node_alloc"]),
+                   ("ensure", "h_ensure_section", ["dr_task_ensure_section", "dr_push_back_section"]),
+                   ("enter_wait", "h_enter_wait", ["dr_enter_wait_tasks__", "dr_task_ensure_section", "dr_end_interval_"]),
+                   ("enter_create", "h_enter_create", ["dr_enter_create_task__", "dr_task_ensure_section"]),
+                   ("return_from_create", "h_return_from_create", ["dr_return_from_create_task__", "dr_task_last_node"]),
+                   ("start_task", "h_start_task", ["dr_start_task__", "dr_mk_dag_node_task"]))
+] + [
+  Job("c18.sections.return_from_wait.bounded", "c18_sections.c", "h_return_from_wait", kind="bounded",
+      replace=EXIT + ["dr_summarize_section_or_task/summarize_named_contract"], cbmc=["--unwind", "6", "--unwinding-assertions"],
+      fuc=["dr_return_from_wait_tasks__", "dr_task_last_node"], timeout=120,
+      note="bounded: the closed section holds at most one create interval before its wait (the loop over its children); nesting depth symbolic"),
+  Job("c18.sections.end_task", "c18_sections.c", "h_end_task",
+      replace=EXIT + ["dr_summarize_section_or_task/summarize_named_contract"], cbmc=["--unwind", "6", "--unwinding-assertions"],
+      fuc=["dr_end_task__"], timeout=120, note="complete: loop-free apart from constant-bounded loops"),
 ]
 META = {
  "level": "other",
@@ -59,7 +79,9 @@ META = {
                "for child lists of length <= 4; dr_free_dag and dr_prune_nodes_norec write no summary, on one concrete 10-node DAG "
                "(six budget / worker-set scenarios for prune); the edges by kind that dr_pi_dag_enum_edges (dr_dump.c) materialises plus the "
                "summaries dr_calc_edges (gen_stat.c) adds for contracted nodes equal the root summary of the accumulate rules, on one concrete "
-               "dumped DAG of 14 nodes in four contraction states.",
+               "dumped DAG of 14 nodes in four contraction states. Recording side (proved, nesting depth symbolic): begin_section / ensure_section push the new "
+               "section as last subgraph of the active node with that node as parent; enter_wait appends the wait interval to the innermost open section "
+               "and pops exactly one level; end_task / return_from_wait (bounded: <= 1 create in the closed section) summarise exactly the closed node.",
  "level_note": "The step from (summary = function of the children's summaries) + (no contraction writes a summary) to 'root totals are independent "
                "of contraction' is an induction on the task tree done on paper. Not decided: which worker ran what, clock behaviour, the text of the "
                ".stat file, the gen_stat.c cross-check work == root t_1, hooks. Trusted: cbmc 6.11 (dfcc), gcc -E.",
@@ -77,6 +99,9 @@ META = {
    "BOUND (kind=bounded): dr_free_dag and dr_prune_nodes_norec run on ONE concrete DAG of 10 nodes that contains every node kind (section -> create->task{other,end}, section{other,wait}, other, wait) with arbitrary summaries; prune in six concrete (budget, single-worker set) scenarios covering: within budget, root collapsed, both inner nodes collapsed, each inner node alone, already minimum. With symbolic budget/worker sets CBMC's symbolic execution did not finish",
    "BOUND (kind=bounded): the uncontracted side (c18_dump.c: real dr_pi_dag_enum_edges + helpers of dr_dump.c, real dr_calc_edges of gen_stat.c) runs on ONE concrete position-independent DAG of 14 nodes (root task -> section{create,other,create,wait}, other, section{create,wait}, end; three contracted created tasks with arbitrary edge summaries < 2^40) in the four contraction states of the two sections; resume kind after each wait (wait_cont / end) nondeterministic; one worker, all nodes on worker 0 (the per-worker attribution of edges is not decided); the expected counts come from the accumulate oracle (property statement), not from the code",
    "STUB (enum_edges jobs): malloc serves the edge array (<= 24 edges) and the counter array (one worker) from two static typed pools, exit() is a stub whose reachability is an obligation failure (no contract instrumentation in these jobs); the node array T is built by the harness in the layout dr_pi_dag_enum_nodes produces (relative offsets), dr_pi_dag_enum_nodes / dr_copy_* themselves are not under contract",
+   "Recording side (c18_sections.c): one-level-down memory of the open-section stack -- active node = the task, or a section SA whose parent is the task or an enclosing section SP whose parent is the task or a further section SG; SG's own parent is never read by the functions under contract, so the nesting depth is symbolic. The active node's subgraph list is empty or ends in one finished subgraph (length 1 or arbitrary). Fresh nodes come from a three-node free list through the REAL dr_dag_node_alloc (the page-allocation path of an empty free list is not exercised)",
+   "Recording side: worker-specific state is the fixed-array variant with one worker (worker 0); papi_on = 0 (dr_papi_read is external), hooks NULL, verbose/dbg 0, generation odd (profiling on); inline-asm rdtsc is dropped by CBMC (clock reads are arbitrary values); dr_summarize_section_or_task is used through a contract whose precondition names the node that must be summarised (its own behaviour: jobs c18.summarize.* / c18.accumulate.*)",
+   "BOUND (kind=bounded): c18.sections.return_from_wait -- the section closed by the wait holds at most one create interval before the wait interval (the loop over its children); end_task assumes well nesting (no section open when the task ends)",
    "ASSUMED CONTRACT: dr_free_dag(g, 0, fl) assigns only g's child list and the free-list head/tail (used by the collapse proof); the `next` links it writes into the freed descendants are not modelled (dead nodes). Its frame is checked on the real body only in the bounded job",
    "ASSUMED CONTRACT: dr_prune_nodes_norec, as seen by summarize, assigns only the root's cur_node_count / child list, the free list and the prune stack; cur_node_count and emptied lists of DESCENDANTS are not modelled there (bounded job checks the real body)",
    "ASSUMED CONTRACT: the debug walker dr_check_node_counts (evaluated only when chk_level != 0) is read-only and returns cur_node_count; in the prune jobs chk_level = 0",
